@@ -44,6 +44,10 @@ CLAIMED['C05'] = dict(
 CLAIMED['C04'] = dict(
    text="Coq theorem C04_execute_contains over the regenerated skeleton of Sandbox._execute: for EVERY oracle the execution returns to the caller unless the class is outside Exception/SystemExit, with exactly one captured failure when student code did not finish and none when it did. PARTIAL: that the recording code itself does not raise is a contract entry, and 'located on the student line' / 'feedback describes that class' are checked only by the zoo oracle (every builtin exception class, user classes with broken __str__/__repr__, SystemExit forms, recursion, blocked builtins, syntax errors incl. NUL, via run/call/evaluate/import, deep frames, epilogues, re-raised objects).",
    note=SB_NOTE, technique="Coq proof over regenerated exception-flow skeleton + exception zoo oracle", design="3/C04")
+CLAIMED['C14'] = dict(
+   text="Coq theorem C14_all_interleavings_ok (closed): for every behaviour (oracle) of the interrupted student thread, of the caller's timeout handler and of the next execution, and for EVERY interleaving (inductive relation; enumeration proved complete in C14_merges_complete) of the student thread's post-termination steps with the grader's steps (handler, then next execution): no step fails, the patch and stdout stacks end empty, the timed-out execution contributes exactly one captured failure - the handler's TimeoutError - and the next execution records its own output once. Step lists are regenerated from sandbox.py/timeout.py on every run; C14_terminate_sets_flag_first proves the terminated flag is set before the SystemExit is injected. Tie: regeneration + the three guarded hooks forcing the coarse orderings (student handler before / after / inside the next run / never) on the real code for busy, printing, swallowing, converting and late-finishing programs.",
+   note=SB_NOTE + " Interleavings finer than the three hook points are covered by the theorem only; CPython's delivery of the asynchronous SystemExit and the bounded return delay are runtime behaviour: measured (watchdog, wall time), not proved. Hooks: PEDAL_EDU_PEDAL_VERIF=1, /repo commit in MANIFEST.hooks.",
+   technique="Coq proof over all interleavings of regenerated step lists + hook-forced schedules on the real code", design="3/C14")
 REASONS = {}
 DEFAULT_REASON = "check not built yet (work in progress; see DESIGN.md section 6 for the order)"
 
